@@ -2,10 +2,18 @@
  * executor hx_run().  Included by hx.c. */
 
 /* ---- driver state ---- */
-static hx_buf drv_rem[2];          /* unconsumed remainder per direction (0 request, 1 response) */
-static int drv_susp[2];
-static int drv_closed[2];          /* the caller closed this direction: later data calls are outside the contract */
-static int drv_sticky[2];          /* 0 none, else the sticky stream state (ERROR / STOP) seen on a data call */
+/* per-parser driver state; DRV points at the state of the parser whose call is in progress (ilv switches it) */
+typedef struct hx_drv {
+    hx_buf rem[2];          /* unconsumed remainder per direction (0 request, 1 response) */
+    int susp[2];
+    int closed[2];          /* the caller closed this direction: later data calls are outside the contract */
+    int sticky[2];          /* 0 none, else the sticky stream state (ERROR / STOP) seen on a data call */
+} hx_drv;
+static hx_drv drv_default, *DRV = &drv_default;
+#define drv_rem (DRV->rem)
+#define drv_susp (DRV->susp)
+#define drv_closed (DRV->closed)
+#define drv_sticky (DRV->sticky)
 static struct timeval drv_tv = { 1000000000L, 0 };
 
 static void drv_canon(hx_buf *b) {
@@ -252,4 +260,48 @@ done:
     }
     hx_cur = NULL;
     return 0;
+}
+
+/* ------------------------------------------------------------------ multi-parser contexts (C19) ---------- */
+struct hx_ctx { htp_connp_t *connp; hx_obs *obs; hx_drv drv; const hx_script *script; };
+void (*hx_cb_nest_hook)(void) = NULL;
+typedef struct ctx_save { hx_obs *cur; const hx_script *scr; htp_connp_t *connp; hx_drv *drv; int in_lib; } ctx_save;
+static ctx_save ctx_enter(hx_ctx *c) {
+    ctx_save sv = { hx_cur, hx_cur_script, hx_connp, DRV, hx_in_lib };
+    hx_cur = c->obs; hx_cur_script = c->script; hx_connp = c->connp; DRV = &c->drv; hx_in_lib = 0;
+    return sv;
+}
+static void ctx_leave(ctx_save sv) { hx_cur = sv.cur; hx_cur_script = sv.scr; hx_connp = sv.connp; DRV = sv.drv; hx_in_lib = sv.in_lib; }
+void hx_multi_begin(void) { lt_reset(&lt_run); hx_live_bytes = 0; hx_alloc_seq = 0; hx_nfault = 0; }
+int hx_multi_end(void) { return (int) lt_run.cnt; }
+hx_ctx *hx_ctx_open(const hx_script *s, hx_obs *o) {
+    hx_ctx *c = __real_calloc(1, sizeof *c);
+    obs_reset(o);
+    c->obs = o; c->script = s;
+    htp_cfg_t *cfg = hx_cfg_get(&s->cfg);
+    ctx_save sv = ctx_enter(c);
+    hx_in_lib = 1; c->connp = htp_connp_create(cfg); hx_connp = c->connp;
+    htp_connp_open(c->connp, "10.0.0.1", 32768, "10.0.0.2", 80, &drv_tv); hx_in_lib = 0;
+    ctx_leave(sv);
+    return c;
+}
+void hx_ctx_op(hx_ctx *c, const hx_op *op) {
+    ctx_save sv = ctx_enter(c);
+    switch (op->k) {
+        case OP_Q: drv_feed(c->connp, 0, op->d, op->n, 0, c->script->raw); break;
+        case OP_S: drv_feed(c->connp, 1, op->d, op->n, 0, c->script->raw); break;
+        case OP_QG: drv_feed(c->connp, 0, NULL, op->n, 1, c->script->raw); break;
+        case OP_SG: drv_feed(c->connp, 1, NULL, op->n, 1, c->script->raw); break;
+        case OP_CLOSE: if (!c->script->raw) drv_drain(c->connp); hx_in_lib = 1; htp_connp_close(c->connp, &drv_tv); hx_in_lib = 0; drv_closed[0] = drv_closed[1] = 1; break;
+        default: break;
+    }
+    ctx_leave(sv);
+}
+void hx_ctx_finish(hx_ctx *c) {
+    ctx_save sv = ctx_enter(c);
+    hx_dump_conn(&c->obs->dump, c->connp, 0);
+    hx_in_lib = 1; htp_connp_destroy_all(c->connp); hx_in_lib = 0;
+    ctx_leave(sv);
+    hb_free(&c->drv.rem[0]); hb_free(&c->drv.rem[1]);
+    __real_free(c);
 }
